@@ -682,6 +682,20 @@ func c14CLI(c *ctx) {
 	add(true, false, "-out", dir, "-name", "_", valid)
 	add(true, false, "-out", dir, "-name", "a-b", valid)
 	add(true, false, "-out", dir, "-name", "", syntax)
+	// output locations of every awkward kind (stat fails with ENOTDIR / ENAMETOOLONG / ELOOP, odd spellings, a lone tilde)
+	loopA, loopB := filepath.Join(dir, "loop-a"), filepath.Join(dir, "loop-b")
+	_ = os.Symlink(loopB, loopA)
+	_ = os.Symlink(loopA, loopB)
+	for _, o := range []string{filepath.Join(outFile, "gen"), filepath.Join(dir, strings.Repeat("n", 300)), filepath.Join(dir, strings.Repeat("d/", 2100)), loopA, filepath.Join(loopA, "x"),
+		"~", "~/", "~nobody", "~/x", "", ".", "/dev/null", "/dev/null/x", "/proc/self/mem", "a\x00b", " ", "-", "--", "\n", "/nonexistent/\xff"} {
+		add(false, true, "-out", o, valid)
+		add(false, true, "-out="+o, "-name", "okpkg9", valid)
+		add(false, true, "-debug", "-out", o, syntax)
+	}
+	for _, nm := range []string{"~", ".", "..", "/", "a/b", strings.Repeat("n", 300), "a\x00b", " ", "-", "\xff", "é", "a b"} {
+		add(false, true, "-out", dir, "-name", nm, valid)
+		add(false, true, "-out", dir, "-name="+nm, valid)
+	}
 	add(false, true, "-h")
 	add(false, true, "-help")
 	add(false, true, "--help")
@@ -702,6 +716,7 @@ func c14CLI(c *ctx) {
 		c.eval()
 		cmd := exec.Command(bin, tcse.args...)
 		cmd.Dir = dir
+		cmd.Env = append(os.Environ(), "HOME="+dir)
 		var out bytes.Buffer
 		cmd.Stdout, cmd.Stderr = &out, &out
 		done := make(chan error, 1)
